@@ -3,8 +3,8 @@ replay never depends on the PRNG."""
 import random, json, copy
 
 FORMATS = ["md5", "sha1", "xxh128", "xxh3", "xxh64", "c4"]
-FILE_NAMES = ["a.txt", "b.txt", "c.bin", "d e.txt", "ü.txt", "x&y.txt", "z<1>.txt", "q'\".txt", "日本.txt", "data.tmp", "keep.bak", "A001.mov", "a001.mov", "é.txt", "é.txt", "long" + "n" * 40 + ".dat", "-.txt", "#h.txt", "[b].txt", "li\u2028ne.txt", "𝄞 clef.txt"]
-DIR_NAMES = ["A", "AB", "a", "s", "t", "sub dir", "é", "pa\u2029ra", "Clips", "Clips_proxy", "tmp", "B", "x&y", "d.tmp"]
+FILE_NAMES = ["a.txt", "b.txt", "c.bin", "d e.txt", "ü.txt", "x&y.txt", "z<1>.txt", "q'\".txt", "日本.txt", "data.tmp", "keep.bak", "A001.mov", "a001.mov", "é.txt", "é.txt", "long" + "n" * 40 + ".dat", "-.txt", "#h.txt", "[b].txt", "li\u2028ne.txt", "𝄞 clef.txt", "take\\3.mov"]
+DIR_NAMES = ["A", "AB", "a", "s", "t", "sub dir", "é", "pa\u2029ra", "Clips", "Clips_proxy", "tmp", "B", "x&y", "d.tmp", "win\\dir"]
 CONTENTS = ["", "a", "b", "hello", "HELLO", "hello\n", "0", "\x00\xff", "same", "same", "x" * 100]
 PATTERNS = ["*.tmp", "*.bak", "tmp", "tmp/", "a.txt", "A", "s/", "*.mov", "d?e.txt", "[ab].txt", "Clips", "é", "data.*", "t", "s/t", "/a.txt", "A/*.txt", "s/*.bin"]
 # order matters in these: a negation re-includes what an EARLIER pattern excluded
@@ -215,7 +215,7 @@ def gen_scenario(seed, profile="general", n_ops=(3, 9)):
     # spell some root paths / -sf paths in a non-canonical way (trailing slash, dot segments, relative invocation)
     for o in ops:
         if o["op"] in ("create", "verify", "verifydh", "diff", "info", "flatten") and rnd.random() < 0.2:
-            o["spell"] = rnd.choice(["slash", "dot", "dotdot", "relative", "cwd"])
+            o["spell"] = rnd.choice(["slash", "dot", "dotdot", "relative", "cwd", "symlink"])
         if o["op"] == "create" and o.get("sf") and rnd.random() < 0.4:
             raws = []
             for x in o["sf"]:
@@ -255,11 +255,13 @@ def gen_nested(seed):
         "Reel10/r.txt": "r10",
         "plain/n.txt": "n",
         "empty/": None,
+        ".proxies/cam1/p1.txt": "p1",
+        ".proxies/h.txt": "hidden folder file",
     }
     for k in list(tree):
         if rnd.random() < 0.15 and k not in ("top.txt",):
             del tree[k]
-    cands = ["A", "A/X", "A/X/Y", "A/X/Y/Z", "AB", "Clips", "Reel1", "AB/A"]
+    cands = ["A", "A/X", "A/X/Y", "A/X/Y/Z", "AB", "Clips", "Reel1", "AB/A", ".proxies/cam1"]
     dirs = set()
     for k in tree:
         parts = k.rstrip("/").split("/")
